@@ -56,7 +56,17 @@ impl ZodBindingsGenerator {
 
         let variants: Vec<String> = field_contexts
             .iter()
-            .map(|field| format!("\"{}\"", field.serialized_name))
+            // a renamed variant may contain quotes or backslashes: written as a string literal
+            .map(|field| {
+                let literal = field
+                    .serialized_name
+                    .replace('\\', "\\\\")
+                    .replace('"', "\\\"")
+                    .replace('\n', "\\n")
+                    .replace('\r', "\\r")
+                    .replace('\t', "\\t");
+                format!("\"{}\"", literal)
+            })
             .collect();
 
         let enum_values = variants.join(", ");
